@@ -593,14 +593,15 @@ def monitor_cases(ctx):
     cases = []
     reps = 2 if ctx.quick else 8
     for name in names:                       # every operation x every argument class
-        for shape in M.SHAPES:
-            for _ in range(reps):
+        chart = name.startswith("plot.plot_")          # altair chart construction: ~0.5 s per call
+        for shape in (M.SHAPES[::2] if chart and ctx.quick else M.SHAPES):
+            for _ in range(1 if chart and ctx.quick else reps):
                 cases.append({"seed": rng.randrange(2**31), "shape": list(shape), "ops": [name]})
     nseq = 700 if ctx.quick else 6000
     maxlen = 6 if ctx.quick else 12
     for _ in range(nseq):                    # random operation sequences, every position watched
         cases.append({"seed": rng.randrange(2**31), "shape": list(rng.choice(M.SHAPES)),
-                      "length": rng.randint(1, maxlen)})
+                      "length": rng.randint(1, maxlen), "no_charts": ctx.quick})
     return cases
 
 
@@ -721,6 +722,9 @@ def run(ctx):
         f.write_text(txt)
         files.append((f, part))
     res = ctx.coqc_many([f for f, _ in files], jobs=16, timeout=900)
+    for f, _ in files:          # a coqc killed under memory pressure (no output) is retried alone
+        if res[f][0] != 0 and not res[f][1].strip():
+            res[f] = ctx.coqc(f, timeout=900)
     mism, exposed = [], 0
     for f, part in files:
         rc, out = res[f]
@@ -806,7 +810,7 @@ def replay(ctx, data):
     if mode == "monitor":
         tmp = ctx.build / "tmp"
         tmp.mkdir(parents=True, exist_ok=True)
-        case = {"seed": data["seed"], "shape": data.get("shape"), "ops": data["ops"]}
+        case = {"seed": data["seed"], "shape": data.get("shape"), "ops": data["ops"]}  # ops are explicit
         rec, viol = M.run_case(case, Path(tmp))
         print("trace:", rec["trace"])
         for v in viol:
